@@ -244,7 +244,10 @@ class C07(Check):
             "top absent / a node / not a node. Non-trivial = at least one predication; distinct by JSON text.")
     assumptions = [
         "variable strings are (sort, canonical decimal id); sorts are ASCII",
-        "EP ids pairwise distinct (true unless an ARG0 has the sort '_'): otherwise the driver answers 'unmodelled'",
+        "EP ids pairwise distinct (proved when every predication has an ARG0 whose sort is not '_', i.e. on the "
+        "property's input space): otherwise the driver answers 'unmodelled' and the oracle does not judge the clauses "
+        "that go through EP ids (is_connected, plausibly_scopes, descendants, representatives); such cases are counted "
+        "as out-of-space in the distribution. The generators never produce the sort '_' and no ARG0 with id 0.",
         "Python set iteration order is not modelled: conjoin / DMRS.scopes are compared up to the chosen label and "
         "up to the order inside a conjoined scope; the BFS start of is_connected is compared for every start "
         "(more than 12 predications: first, middle and last start only; the oracle additionally re-runs the real "
@@ -601,7 +604,11 @@ class C07(Check):
             last[hc.hi] = hc.lo
         c_last = naive_connected(m, lambda v: last.get(v, v))
         c_first = naive_connected(m, lambda v: first.get(v, v))
-        if c_last == c_first and res["connected"] != c_last:
+        # every clause that goes through EP ids (is_connected's graph, m.arguments(), m[id], descendants,
+        # representatives) is judged only when the real ids are pairwise distinct: colliding ids arise only
+        # outside the property's input space (predications without ARG0 / ARG0 of sort '_'), where the
+        # id-keyed dictionaries of the code silently merge predications
+        if distinct_ids and c_last == c_first and res["connected"] != c_last:
             fail("is_connected differs from graph connectivity of the predications",
                  {"impl": res["connected"], "definition": c_last})
         # start independence / order independence: the same MRS with its EPs reversed
@@ -624,7 +631,7 @@ class C07(Check):
             fail("has_intrinsic_variable_property is not the conjunction of its two tests", None)
 
         # -- plausible scoping and the conjunction
-        if res["plausible"] != naive_plausible(m):
+        if distinct_ids and res["plausible"] != naive_plausible(m):
             fail("plausibly_scopes differs from its documented tests", {"impl": res["plausible"]})
         if res["wf"] != (res["connected"] and res["ivprop"] and res["plausible"]):
             fail("is_well_formed is not the conjunction of is_connected, IV property and plausibly_scopes",
@@ -715,7 +722,7 @@ class C07(Check):
                 want = sorted(want, key=lambda i: (rep_rank(m, eps[i]), i))
                 if [pos[id(p)] for p in reps[l]] != want:
                     fail("representatives differ from their definition (unblocked members by priority)", V(l))
-        if res["wf"]:
+        if res["wf"] and distinct_ids:
             for l in labels:
                 if not reps[l]:
                     fail("well-formed MRS has a scope without a representative", V(l))
@@ -820,7 +827,11 @@ class C07(Check):
             if len(set(his)) != len(his):
                 inc("mrs:duplicate-hi")
             if len({canon(i) for i in res["ids"]}) != len(res["ids"]):
-                inc("mrs:dup-ids(unmodelled)")
+                inc("mrs:out-of-space: colliding EP ids (id-based clauses not judged, model answers unmodelled)")
+            if any(not any(r == "ARG0" for r, _ in e["args"]) for e in m["rels"]):
+                inc("mrs:out-of-space: predication without intrinsic argument")
+            if any(r == "ARG0" and v[0] == "_" for e in m["rels"] for r, v in e["args"]):
+                inc("mrs:out-of-space: ARG0 of sort '_'")
             if any(canon(e["label"]) in [canon(v) for r, v in e["args"] if r != "ARG0"] for e in m["rels"]):
                 inc("mrs:self-scoping-arg")
             inc("mrs:conjoin=" + ("KeyError" if "err" in res["conjoin"] else
